@@ -180,6 +180,9 @@ def editOf (j : Json) : Except String Edit := do
   | "lattice" => return .lattice (← natAt j 1) (← pyOf (← arrAt j 2))
   | "delLattice" => return .delLattice (← natAt j 1)
   | "universe" => return .universe (← natAt j 1) (← natAt j 2)
+  | "claim" => return .claim (← natAt j 1) (← (← (← arrAt j 2).getArr?).toList.mapM (fun x => do
+      let n ← x.getInt?
+      if n < 0 then throw "negative index" else pure n.toNat))
   | "notTruncated" => return .notTruncated (← natAt j 1) (← pyOf (← arrAt j 2))
   | "fillUniverse" => return .fillUniverse (← natAt j 1) (← optNatOf (← arrAt j 2))
   | "fillTransform" => return .fillTransform (← natAt j 1) (← optNatOf (← arrAt j 2))
